@@ -134,7 +134,13 @@ def run(ctx):
         g = s.func
         gf = Flow(g.body)
         fs = gf.facts_at(s.bb)
-        arm = [(a, t2) for (a, t2) in fs if a[0] == "variant" and a[2] == "Complete" and t2 and any(c[0] == "call" and c[1] == FR + "::state" for c in walk(a[1]))]
+        # `match r.state() { Complete => .. }` or `let st = r.state(); if st != Complete { return }` (facts_at also carries the latter with `st`
+        # written out)
+        arm = []
+        for (a, t2) in fs:
+            et = enum_test((a, t2))
+            if et is not None and et[1] == "Complete" and et[2] and any(c[0] == "call" and c[1] == FR + "::state" for c in walk(et[0])):
+                arm.append((("variant", et[0], "Complete"), True))
         if not arm:
             r2.violation(key, "not dominated by the Complete arm of fdt_receiver.state()", s.loc)
             continue
@@ -161,7 +167,7 @@ def run(ctx):
         pf = [s2 for s2, ai, mut in calls_on_field(prog, RC, "fdt_current", funcs=[g]) if method_name(s2) == "push_front"]
         for s2 in pf:
             fs2 = gf.facts_at(s2.bb)
-            if any(a[0] == "variant" and a[2] == "Complete" and t2 for (a, t2) in fs2):
+            if any((enum_test((a, t2)) or (None, None, None))[1:] == ("Complete", True) for (a, t2) in fs2):
                 r2.ok("push_fdt_obj: only a Complete instance becomes current", "", s2.loc)
             else:
                 r2.violation("push_fdt_obj: only a Complete instance becomes current", "an Expired / unfinished instance can be made current", s2.loc)
